@@ -11,8 +11,8 @@ AllTrue == [uu \in URLS |-> TRUE]
 IncChain == [A |-> <<"B">>, B |-> <<"C">>, C |-> <<>>, D |-> <<>>]
 IncDiamond == [A |-> <<"B", "C">>, B |-> <<"D">>, C |-> <<"D">>, D |-> <<>>]
 G == IOEnv.GRAPH
-cInc == IF G = "chain" \/ G = "missingleaf" \/ G = "badleaf" THEN IncChain ELSE IncDiamond
-cFetch == IF G = "missingleaf" THEN [AllTrue EXCEPT !["C"] = FALSE] ELSE AllTrue
+cInc == IF G \in {"chain", "missingleaf", "badleaf", "binaryleaf"} THEN IncChain ELSE IncDiamond
+cFetch == IF G \in {"missingleaf", "binaryleaf"} THEN [AllTrue EXCEPT !["C"] = FALSE] ELSE AllTrue
 cParse == IF G = "badleaf" THEN [AllTrue EXCEPT !["C"] = FALSE] ELSE AllTrue
 \* caller programs
 P == IOEnv.PROG
@@ -21,15 +21,28 @@ cProg == CASE P = "dA_lA" -> << <<"deferred", "A">>, <<"load", "A">> >>
            [] P = "dA_dB_lA_lA" -> << <<"deferred", "A">>, <<"deferred", "B">>, <<"load", "A">>, <<"load", "A">> >>
            [] P = "dD_dB_lD_lD" -> << <<"deferred", "D">>, <<"deferred", "B">>, <<"load", "D">>, <<"load", "D">> >>
            [] P = "lA_lA" -> << <<"load", "A">>, <<"load", "A">> >>
+           [] P = "lA_rA_lA" -> << <<"load", "A">>, <<"refresh", "A">>, <<"load", "A">> >>
+           [] P = "dA_rA_lA_lA" -> << <<"deferred", "A">>, <<"refresh", "A">>, <<"load", "A">>, <<"load", "A">> >>
+           [] P = "lC_rC_lC_lC" -> << <<"load", "C">>, <<"refresh", "C">>, <<"load", "C">>, <<"load", "C">> >>
+           [] P = "dB_rA_lB_lA" -> << <<"deferred", "B">>, <<"refresh", "A">>, <<"load", "B">>, <<"load", "A">> >>
            [] OTHER -> << <<"load", "C">>, <<"deferred", "A">>, <<"load", "C">> >>
+\* state of the download cache at the start: empty, warm (a fresh copy of every resource that exists) or
+\* stale (an outdated copy of every resource, also of one that has vanished since)
+CS == IOEnv.CACHE
+cCache == [uu \in URLS |-> IF CS = "warm" /\ cFetch[uu] THEN "fresh" ELSE IF CS = "stale" THEN "stale" ELSE "absent"]
 KnownErr == IF IOEnv.KNOWN = "none" THEN {} ELSE {"RuntimeError"}
 
 NoRaise == \A p \in Procs : err[p] \in {"ok"} \cup KnownErr
 Transparent == \A ii \in DOMAIN results :
                   IF cFetch[results[ii][1]] /\ cParse[results[ii][1]] THEN results[ii][2] \notin {NoneV, Absent}
                   ELSE results[ii][2] = NoneV
-SameCached == \A ii, jj \in DOMAIN results : results[ii][1] = results[jj][1] => results[ii][2] = results[jj][2]
-CacheSafe == \A uu \in cachew : cFetch[uu]
+\* "later loads return the same cached object until refresh": within one epoch (no refresh begun in between)
+SameCached == \A ii, jj \in DOMAIN results : (results[ii][1] = results[jj][1] /\ results[ii][3] = results[jj][3]) => results[ii][2] = results[jj][2]
+\* a fetch that fails never creates or overwrites a cache file
+CacheSafe == /\ \A uu \in cachew : cFetch[uu]
+             /\ \A uu \in URLS : ~cFetch[uu] => cache[uu] = cCache[uu]
+\* a fresh cache copy is never replaced except after a refresh; a stale or missing one is fetched before use
+NeverServesStale == \A uu \in URLS : (loaded[uu] \notin {Absent, NoneV}) => cache[uu] = "fresh"
 Stopped(p) == pc[p] \in {"Done", "Halt", "DHalt"}
 \* a thread waiting to be started that never will be is not "blocked": it is not a call of anybody
 Progress == (\A p \in Procs : Stopped(p) \/ (p \in Thr /\ pc[p] = "TBegin" /\ tstate[p] = "unborn")) \/ ENABLED Next
